@@ -365,7 +365,18 @@ func mutate(t *rapid.T, s string) string {
 func drawStr(t *rapid.T) StrCase {
 	s := sel.Gen(t, sel.GenCfg{MaxSegs: 5})
 	text := s.Text()
-	switch rapid.IntRange(0, 9).Draw(t, "smode") {
+	switch rapid.IntRange(0, 10).Draw(t, "smode") {
+	case 10:
+		// one quoted-name bracket whose content is built from quotes, escaped quotes, backslashes and junk - the region
+		// where "which quote closes the name" is decided - followed by an ordinary tail
+		n := rapid.IntRange(0, 6).Draw(t, "qn")
+		content := ""
+		for i := 0; i < n; i++ {
+			content += rapid.SampledFrom([]string{"a", "admin", `"`, `\"`, `\\`, `\`, "junk", "=", " ", "]", "[", ".", "?", "'", `""`, `"\"`}).Draw(t, "qatom")
+		}
+		pre := rapid.SampledFrom([]string{".", ".x", ".x.", ".[0]", ".x?"}).Draw(t, "qpre")
+		post := rapid.SampledFrom([]string{"", "?", ".y", "[0]", "[]", `["z"]`, "?.y"}).Draw(t, "qpost")
+		return StrCase{S: pre + `["` + content + `"]` + post}
 	case 0, 1, 2:
 		return StrCase{S: text, Intent: s}
 	case 3:
